@@ -71,7 +71,7 @@ def process_harness(ctx, res, pkg_rel, max_replay_per_driver=2, order_free=None)
     return new, known, len(cases), mismatches, details
 
 
-def self_validate(ctx, res, impl_tree=None, harness_pkg=None, order_free=None, max_pkgs=3, per_pkg=10):
+def self_validate(ctx, res, impl_tree=None, harness_pkg=None, order_free=None, max_pkgs=3, per_pkg=10, harness_pkg_of_driver=None):
     """Translator self-validation: the concrete logs the engine predicts for sampled decided paths
     (a model of the final path condition) must be what the natively compiled real code prints
     for the same nondet vector. Returns (validated, mismatches)."""
@@ -86,6 +86,8 @@ def self_validate(ctx, res, impl_tree=None, harness_pkg=None, order_free=None, m
             continue
         if harness_pkg:
             pkg_rel = harness_pkg
+        elif harness_pkg_of_driver:
+            pkg_rel = "%s/%s" % (harness_pkg_of_driver, d["name"].rsplit(".", 1)[0].split("/")[-1])
         else:
             pkg_rel = "%s/%s" % (impl_tree, d["name"].rsplit(".", 1)[0].split("/")[-1])
         by_pkg.setdefault(pkg_rel, []).append((d["name"].split(".")[-1], smp))
@@ -98,7 +100,7 @@ def self_validate(ctx, res, impl_tree=None, harness_pkg=None, order_free=None, m
             n = nat.get(fn)
             if n is None:
                 continue
-            if harness_pkg:
+            if harness_pkg or harness_pkg_of_driver:
                 ok = all(events_equal(smp["logs"].get(l), n["logs"].get(l)) for l in set(smp["logs"]) | set(n["logs"])) and not n["fails"]
             else:
                 ok = events_equal(smp["logs"].get("1"), n["logs"].get("0"))
@@ -925,6 +927,8 @@ CLAIMED["C12"] = plan_C12
 def plan_C14(ctx):
     k, m = ctx.q((2, 3), (3, 3))
 
+    map_pids = []
+
     def build(corp):
         rng = random.Random(ctx.seed * 389 + 14)
         n = 0
@@ -945,10 +949,27 @@ def plan_C14(ctx):
             body = smp.body([rng.randint(3, 8)], gen.Ctr(), [], False, False, 0, [])
             if "yieldfrom" in repr(body):
                 bodies.append((body, gen.C05_HELPERS))
+        # generators that range over collections built from their arguments (the range iterators of
+        # seq/iter.go are runtime state too)
+        Y = lambda e: ("yield", e)
+        rng_bodies = [
+            [("raw", "s := string([]byte{byte(a), byte(b)})"), ("range", "i", "r", ":=", "s", [Y("i*1000 + int(r)")]), Y("a + 1")],
+            [("raw", "s := string([]byte{byte(a)})"), ("range", "i", "r", ":=", "s", [Y("i*1000 + int(r)")]), ("range", "_", "r", ":=", "s", [Y("int(r) + 5")])],
+            [("raw", "s := string([]byte{'x', byte(b), 'z'})"), ("range", "i", None, ":=", "s", [Y("i + a")])],
+            [("raw", "sl := []int{a, b}"), ("range", "i", "v", ":=", "sl", [Y("i*1000 + v"), ("raw", "sl[1] = a + b")]), Y("sl[1]")],
+            [("raw", "m := map[int]int{1: a, 2: b}"), ("range", "k", "v", ":=", "m", [Y("k*1000 + v")])],
+            [("raw", "ch := make(chan int, 2)\nch <- a\nch <- b\nclose(ch)"), ("range", "v", None, ":=", "ch", [Y("v + 1")])],
+            [("raw", "arr := [2]int{a, b}"), ("range", "i", "v", ":=", "arr", [Y("i*1000 + v")]), Y("b + 2")],
+            [("raw", "s := string([]byte{byte(a), byte(b)})"), ("range", "_", "r", ":=", "s", [("range", "_", "q", ":=", "s", [Y("int(r)*256 + int(q)")])])],
+        ]
+        for body in rng_bodies:
+            bodies.append((body, ""))
         for body, helpers in bodies:
             p = gen.Program("i%04d" % n, body, helpers=helpers, named_result=(n % 2 == 0), family="il")
             if p.tags & {"break-in-yielding-switch-after-yield", "continue+yielding-post"}:
                 continue
+            if "map[" in repr(body):
+                map_pids.append(p.pid)
             makers = ["%s(a, b, n, g1, g2, g3)" % p.name, "%s(a, b, n, g1, g2, g3)" % p.name, "%s(b, a, n, !g1, g2, g3)" % p.name][:k]
             if helpers == gen.C05_HELPERS and k >= 2:
                 makers[1] = "R1(n+1, b)"  # a recursive delegator as the second iterator
@@ -987,7 +1008,8 @@ def plan_C14(ctx):
         fp = [f for f in d["failures"] if f["kind"] == "footprint"]
         other = [f for f in d["failures"] if f["kind"] != "footprint"]
         if other:
-            a, b, c, e, f = process_harness(ctx, {"drivers": [dict(d, failures=other)]}, pkg_rel, max_replay_per_driver=1)
+            a, b, c, e, f = process_harness(ctx, {"drivers": [dict(d, failures=other)]}, pkg_rel, max_replay_per_driver=1,
+                                            order_free="|".join("G%s$" % x for x in map_pids) or None)
             new += a; known += b; replayed += c; mism += e; details += f
         elif fp:
             # footprint conflicts cannot be replayed natively (they are an engine observation)
@@ -1001,7 +1023,7 @@ def plan_C14(ctx):
                   "heap_cells_tracked": sum(d.get("tracked_cells", 0) for d in res["drivers"]), "details": details[:20]})
     return finish(ctx, res, "model_checking", new, known, replayed, mism, extra,
                   [PROGRAM_DIM, "goroutines are not modelled: 'do not race' is decided as footprint disjointness on every explored path"],
-                  floors={"drivers_holds": ctx.q(50, 200)})
+                  floors={"drivers_holds": ctx.q(50, 200)}, sv={"harness_pkg_of_driver": "out", "order_free": "|".join("G%s$" % x for x in map_pids) or None})
 
 
 CLAIMED["C14"] = plan_C14
